@@ -150,6 +150,34 @@ CHECKS.update({
     ),
 })
 
+
+# Layers added in round 4 (size thresholds, histories on one object); appended to the level text.
+S_NOTE = "size-threshold layer: templates with repeat slots whose counts range over every value of a dense prefix and over 2^j-2..2^j+2 for every j up to the bound"
+EXTRA = {
+    "C01": "; plus " + S_NOTE + " (29 templates: names, texts, blank runs, bodies, runs of delimiter look-alikes, nesting, sibling and attribute counts; up to 2^10/2^16) on the slice reader and through the buffered reader (pieces 1, 7, 64, ...)",
+    "C02": "; plus the stretch templates under uniform pieces around the powers of two (up to 8192) and every single cut next to a pattern change",
+    "C03": "; plus the stretch templates on all eight reader variants and depth/count templates up to 2^16+2 (open elements, siblings, attributes, declarations) incl. NsReader",
+    "C04": "; the same walk with the three names stretched to 2..65537 bytes",
+    "C05": "; plus every document with tab / LF / CR LF TAB / two blanks in front of every attribute, and representative documents inside 1..65538 plain wrapper elements and 1..300/1100 wrappers that each declare a new prefix",
+    "C06": "; plus filler^p.item.filler^q strings (p<=40/130, q around powers of two, 12 items incl. U+FEFF) in every payload position",
+    "C07": "; plus targets whose visitors consume nothing (zero-length arrays, empty tuple structs) as map values and sequence items, tuples of units, and a nesting soup (all sequences <=6/8 over six nesting tokens x 14 skipping targets)",
+    "C08": "; plus the stretch templates (every markup kind through every small length and around every power of two up to 2^13/2^16) incl. read -> write",
+    "C09": "; the BytesStart edit machine starts from owned and borrowed events (new, from_content, read by the Reader) and can continue on borrow()",
+    "C10": "; plus numeric references with 0..40/130 leading zeros x 210 significant-digit strings (values that wrap to a valid scalar modulo 2^8..2^128), and one or two special items at every position of strings of every length <=72/300",
+    "C11": "; plus 12 stretch shapes (n distinct attributes and a duplicate of the first/middle/last, keys and values of n bytes, runs of blanks / of the other quote)",
+    "C12": "; plus six stretch shapes up to 2^16+2 (same-name nesting depth, child count, look-alike end tags, blanks) and histories on ONE reader (reads, skips, configuration flips interleaved, <=4/6 operations) compared across the slice, buffered and async readers",
+    "C13": "; plus long payloads filler^p.hostile.filler^q with p up to 2^13+2/2^16+2 and non-ASCII characters in the alphabet",
+    "C14": "; plus 14 stretched document templates x 10 targets x piece sizes around the powers of two, and namespace scopes under skips (xsi re-bound inside skipped content, xsi:nil afterwards)",
+    "C15": "; the string pool contains U+FEFF inside a string",
+    "C16": "; plus the stretch templates x all 128 configurations (slice) and x 16 (buffered, pieces 7 and 64)",
+    "C17": "; plus every sampled character as the FIRST character of every payload (incl. U+FEFF) and long payloads (1000..65537 bytes, shifted by 0..3 bytes)",
+    "C18": "; hard errors of kind Other, BrokenPipe, UnexpectedEof and one of 18 kinds in rotation (all 18 on the shortest inputs); 17 and 40 consecutive interrupts; an interrupt before every piece; the stretch templates with pieces 7, 64, whole",
+    "C19": "; the writer alphabet has blank-only Text and CDATA events",
+    "C20": "; plus five long-list shapes with up to 2^12+2/2^16+2 items at the decisive limits, from_str and from_reader",
+}
+for _k, _v in EXTRA.items():
+    CHECKS[_k]["text"] += _v
+
 PENDING_REASON = "check not built yet (work in progress; see DESIGN.md §9 for the order of work)"
 
 ALL = ["C%02d" % i for i in range(1, 21)]
